@@ -668,18 +668,6 @@ theorem inv_spawnAll {w : World} (o : Opts) (cb : Nat → Bool) :
 theorem inv_init (w : World) : Inv w {} :=
   ⟨List.nodup_nil, fun _ h => by simp at h, fun _ h => by simp at h, rfl, fun _ _ _ => rfl⟩
 
-def fsStart (w : World) (o : Opts) : PS :=
-  if o.processes > 1 && o.resume.isNone then ({} : PS).emit (.summary 0 0 w.importErrors 0) else {}
-
-/-- the state after the layer loop of this process, with the layers left for `resume_tests` -/
-def fsLoop (w : World) (o : Opts) : PS × List (Nat × List Proto.TestDef) :=
-  if o.processes > 1 && o.resume.isNone then (fsStart w o, orderedLayers w o)
-  else layerLoop w o (orderedLayers w o) (fsStart w o)
-
-def fsSpawned (w : World) (o : Opts) (cb : Nat → Bool) : PS :=
-  if o.resume.isNone then spawnAll o cb (fsLoop w o).2 (if o.processes > 1 then 1 else 0) (fsLoop w o).1
-  else (fsLoop w o).1
-
 theorem finalState_eq (w : World) (o : Opts) (cb : Nat → Bool) :
     finalState w o cb =
       if (fsLoop w o).1.aborted || (fsLoop w o).1.interrupted then (fsLoop w o).1
